@@ -140,7 +140,7 @@ theorem round_at (num den U m : Nat) (hd : 0 < den) (hU : 2 ^ (bitLen (num / den
   have hUpos : 0 < U := by rw [← hU]; exact Nat.two_pow_pos _
   rw [roundK_eq_rne num den hd, hU, rne_eq num (den * U) m (Nat.mul_pos hd hUpos) hm hlo hhi htie]
 
-theorem q_bounds (num den U m : Nat) (hd : 0 < den) (hm : 1 ≤ m)
+theorem q_bounds (num den U m : Nat) (hd : 0 < den) (_hm : 1 ≤ m)
     (hlo : 2 * (m * (den * U)) ≤ 2 * num + 2 * (den * U)) (hhi : 2 * num < 2 * (m * (den * U)) + 2 * (den * U)) :
     (m - 1) * U ≤ num / den ∧ num / den < (m + 1) * U := by
   constructor
@@ -222,6 +222,7 @@ theorem roundK_inside (k num den : Nat) (hk0 : k ≠ 0) (hg : 2 ^ (bitLen k - 53
     have e2 : (2 * k + 2 * H) * den = 2 * (m * (den * (2 * H))) + den * (2 * H) := by
       rw [Nat.add_mul, Nat.mul_assoc, hkD, hUD]
     have hDm : den * (2 * H) ≤ m * (den * (2 * H)) := Nat.le_mul_of_pos_left _ hm0
+    have hDpos : 0 < den * (2 * H) := Nat.mul_pos hd (by omega)
     rw [e2] at h
     by_cases hpow : k = 2 ^ 53 * H
     · -- a power of two: the gap below is half as wide
